@@ -216,7 +216,166 @@ var rElide = &Rule{
 				"the announcement ("+what+") is not followed by elideShortChildren: for layers rendered at this site the causes' short messages are printed after a message that already contains or replaces them")
 		})
 		c.Min("message-ownership announcement sites", n, 5)
+		// a foreign error is rendered through its own Format method or through formatSimple; when it is a multi-cause
+		// node its text already accounts for its branches, so on every path from such a rendering site an elide call
+		// is reached under the assumption len(causes) > 0
+		isMultiTest := func(l lit) (bool, bool) { // (is a test of len(<[]error>) against 0, its truth when there are branches)
+			bin, ok := l.V.(*ssa.BinOp)
+			if !ok {
+				return false, false
+			}
+			call, ok := bin.X.(*ssa.Call)
+			if !ok {
+				return false, false
+			}
+			b, ok := call.Call.Value.(*ssa.Builtin)
+			if !ok || b.Name() != "len" {
+				return false, false
+			}
+			sl, ok := types.Unalias(call.Call.Args[0].Type()).Underlying().(*types.Slice)
+			if !ok || !sx.IsErrorType(sl.Elem()) {
+				return false, false
+			}
+			k, isK := sx.ConstInt(bin.Y)
+			if !isK {
+				return false, false
+			}
+			var truth bool
+			switch {
+			case bin.Op == token.GTR && k == 0, bin.Op == token.NEQ && k == 0, bin.Op == token.GEQ && k == 1:
+				truth = true
+			case bin.Op == token.EQL && k == 0, bin.Op == token.LEQ && k == 0, bin.Op == token.LSS && k == 1:
+				truth = false
+			default:
+				return false, false
+			}
+			if l.Neg {
+				truth = !truth
+			}
+			return true, truth
+		}
+		nForeign := 0
+		reg.each(func(in ssa.Instruction) {
+			call, ok := in.(*ssa.Call)
+			if !ok {
+				return
+			}
+			what := ""
+			switch {
+			case sx.Callee(call) == fs:
+				what = "formatSimple"
+			case call.Call.IsInvoke() && call.Call.Method.Name() == "Format" && len(call.Call.Args) == 2:
+				what = "the error's own Format method"
+			default:
+				return
+			}
+			nForeign++
+			ok = mustReachAssuming(call, isMultiTest, func(x ssa.Instruction) bool {
+				cl, isCall := x.(*ssa.Call)
+				return isCall && sx.Callee(cl) == elide
+			})
+			c.Check(ok, fmt.Sprintf("%s: multi-cause node rendered through %s", load.FnName(call.Parent()), what), call.Pos(), "when the node has branches, elideShortChildren is reached on every path from the rendering",
+				"a multi-cause error rendered at this site ("+what+") does not get its branches' short messages elided: its own text already lists them, so %v/%s print them twice and differ from Error()")
+		})
+		c.Min("foreign rendering sites", nForeign, 3)
 	},
+}
+
+// mustReachAssuming: from the instruction after start, every path to a return reaches an instruction accepted by
+// goal, where a branch on a test that assume recognises is followed only along the edge on which the assumption holds,
+// and booleans merged by phis are followed with the constants they carry.
+func mustReachAssuming(start ssa.Instruction, assume func(l lit) (bool, bool), goal func(ssa.Instruction) bool) bool {
+	var reach func(b, pred *ssa.BasicBlock, from int, known map[ssa.Value]bool, seen map[*ssa.BasicBlock]bool, d int) bool
+	reach = func(b, pred *ssa.BasicBlock, from int, known map[ssa.Value]bool, seen map[*ssa.BasicBlock]bool, d int) bool {
+		if d > 16 || (from == 0 && seen[b]) {
+			return false
+		}
+		seen2 := map[*ssa.BasicBlock]bool{}
+		for k := range seen {
+			seen2[k] = true
+		}
+		if from == 0 {
+			seen2[b] = true
+		}
+		kn := map[ssa.Value]bool{}
+		for k, v := range known {
+			kn[k] = v
+		}
+		for i := from; i < len(b.Instrs); i++ {
+			in := b.Instrs[i]
+			if ph, ok := in.(*ssa.Phi); ok {
+				for j, p := range b.Preds {
+					if p != pred {
+						continue
+					}
+					if cst, ok := ph.Edges[j].(*ssa.Const); ok && cst.Value != nil && (cst.Value.String() == "true" || cst.Value.String() == "false") {
+						kn[ph] = cst.Value.String() == "true"
+					} else if v, ok := kn[ph.Edges[j]]; ok {
+						kn[ph] = v
+					}
+				}
+				continue
+			}
+			if goal(in) {
+				return true
+			}
+			switch x := in.(type) {
+			case *ssa.Return:
+				return false
+			case *ssa.Jump:
+				return reach(b.Succs[0], b, 0, kn, seen2, d+1)
+			case *ssa.If:
+				if v, ok := kn[x.Cond]; ok {
+					i := 1
+					if v {
+						i = 0
+					}
+					return reach(b.Succs[i], b, 0, kn, seen2, d+1)
+				}
+				// does one edge contradict the assumption?
+				take := []int{0, 1}
+				for ei, truth := range []bool{true, false} {
+					for _, l := range condLits(x.Cond, truth) {
+						if is, want := assume(lit{V: l.V, Neg: false}); is {
+							holdsHere := !l.Neg
+							if holdsHere != want {
+								// this edge is taken only when the assumption fails
+								var keep []int
+								for _, t := range take {
+									if t != ei {
+										keep = append(keep, t)
+									}
+								}
+								take = keep
+							}
+						}
+					}
+				}
+				for _, t := range take {
+					kn2 := map[ssa.Value]bool{}
+					for k, v := range kn {
+						kn2[k] = v
+					}
+					for _, l := range condLits(x.Cond, t == 0) {
+						kn2[l.V] = !l.Neg
+					}
+					if !reach(b.Succs[t], b, 0, kn2, seen2, d+1) {
+						return false
+					}
+				}
+				return len(take) > 0
+			}
+		}
+		return false
+	}
+	b := start.Block()
+	idx := 0
+	for i, in := range b.Instrs {
+		if in == start {
+			idx = i + 1
+		}
+	}
+	return reach(b, nil, idx, map[ssa.Value]bool{}, map[*ssa.BasicBlock]bool{}, 0)
 }
 
 // ---------------------------------------------------------------------------
